@@ -51,6 +51,7 @@ type vfQueued struct {
 	from int
 	ord  int
 	dup  bool
+	fn   func() // scheduled application action (lock-step mode) instead of a packet
 }
 
 type vfHeap []*vfQueued
@@ -105,6 +106,7 @@ type vfNet struct {
 
 	onWrite func(side int, raw []byte) // optional tap (e.g. crash-point injection); called without net.mu
 	snapFn  func(side int) *vfSnap
+	afterSettle func() // lock-step mode: runs on the pump goroutine after every settle
 	nDrop   int
 	nDup    int
 	nDelay  int
@@ -318,6 +320,15 @@ func (n *vfNet) inject(to int, raw []byte, delay time.Duration) {
 	n.poke()
 }
 
+// schedule runs fn on the pump goroutine at virtual offset `at` (ordered with packet deliveries by
+// (due, seq)); in lock-step mode everything has settled before and after it runs.
+func (n *vfNet) schedule(at time.Duration, fn func()) {
+	n.mu.Lock()
+	heap.Push(&n.q, &vfQueued{due: at, seq: n.seq.Add(1), fn: fn})
+	n.mu.Unlock()
+	n.poke()
+}
+
 // freeze holds every packet written from now on until release is called.
 func (n *vfNet) freeze() {
 	n.mu.Lock()
@@ -386,6 +397,10 @@ func (n *vfNet) pump() {
 	for {
 		if n.cfg.Lockstep {
 			n.vfWait()
+			if n.afterSettle != nil {
+				n.afterSettle()
+				n.vfWait()
+			}
 		}
 		n.mu.Lock()
 		if n.stopped {
@@ -401,7 +416,11 @@ func (n *vfNet) pump() {
 		if next != nil && next.due <= now {
 			heap.Pop(&n.q)
 			n.mu.Unlock()
-			n.conns[next.to].deliver(next)
+			if next.fn != nil {
+				next.fn()
+			} else {
+				n.conns[next.to].deliver(next)
+			}
 
 			continue
 		}
